@@ -43,7 +43,9 @@ var hrefPool = []string{"http://example.com/", "https://a.b/c", "//cdn.x/y", "/l
 	// hrefs net/url rejects
 	"http://example.com/sale-100%", "http://example.com/%zz", "https://a.b/\x7f", "//cdn.x/%", "/local/100%",
 	// surrounded by spaces / holding tab or newline: the URL parser of a browser removes them first
-	" //padded.example/", "  //padded.example/x ", "\t//tab.example/", "/\t/tab.example/", "//new\nline.example/", " /local ", "\n//nl.example/"}
+	" //padded.example/", "  //padded.example/x ", "\t//tab.example/", "/\t/tab.example/", "//new\nline.example/", " /local ", "\n//nl.example/",
+	// forms in which only a browser finds a host
+	"http:/evil.example", "https:evil.example/x", "https:\\\\evil.example", "///evil.example/", "/\\evil.example", "\\\\evil.example/p", "\\/evil.example", "HTTP:\\evil.example", "/%2F/evil.example/^", "ftp:/files.example/", "/\\/evil.example", "x-app:/local", "mailto:/x"}
 var targetPool = []string{"_blank", "_self", "foo", "_BLANK", "", "_blank ", "_top"}
 
 func genC11(t *rapid.T) *Case {
